@@ -99,7 +99,7 @@ def _panel():
 
 SEGPANEL = _panel()
 NPANEL = len(SEGPANEL)
-FORMS = ['token', 'reps', 'component', 'subcomponent']
+FORMS = ['token', 'reps', 'component', 'subcomponent', 'reps-with-empty-middle']
 NFORM = len(FORMS)
 MAXF = max(len(T.seg_children(v, s)) for v, s in SEGPANEL)
 
@@ -111,6 +111,8 @@ def form_text(v, child, form, c, k, tokA, tokB):
         return tokA
     if form == 1:
         return tokA + '~' + tokB
+    if form == 4:
+        return tokA + '~~' + tokB
     if ref[0] != 'sequence':
         return None
     comps = ref[1]
@@ -175,7 +177,7 @@ def _all_shapes():
                     for f2 in range(NFORM):
                         for c in range(3):
                             for k in range(2):
-                                if (f1 < 2 and f2 < 2 and (c > 0 or k > 0)) or (f1 != 3 and f2 != 3 and k > 0):
+                                if (f1 in (0, 1, 4) and f2 in (0, 1, 4) and (c > 0 or k > 0)) or (f1 != 3 and f2 != 3 and k > 0):
                                     continue      # c / k are irrelevant for these forms: one representative
                                 if shape_text(pi, i, far, f1, f2, c, k) is not None:
                                     out.append((pi, i, far, f1, f2, c, k))
@@ -198,6 +200,58 @@ def _ob_shape(r: int, w: int) -> bool:
         pi, i, far, f1, f2, c, k = SHAPES[r]
         wrap, fg = WRAPS[w]
         return shape_check(pi, i, far, f1, f2, c, k, wrap, fg)
+
+
+# ---- K.catalogue: special canonical texts (symbolic index) -----------------------------------------------------------------------
+# (kind, version, text, id of the recorded finding it belongs to or None)
+CATALOGUE = [
+    ('message', '2.7', 'MSH|^~\\&|A|B|||2020||ADT^A01^ADT_A01|1|P|2.7\rEVN||2020\rPID|||1||a#b\rPV1||I', None),   # 4-char MSH-2: '#' is data
+    ('message', '2.8', 'MSH|^~\\&|A|B|||2020||ADT^A01^ADT_A01|1|P|2.8\rEVN||2020\rPID|||1||a#b^c#\rPV1||I', None),
+    ('message', '2.7', 'MSH|^~\\&#|A|B|||2020||ADT^A01^ADT_A01|1|P|2.7\rEVN||2020\rPID|||1||a\\L\\b\rPV1||I', None),
+    ('message', '2.5', 'MSH|^~\\&|A|B|||2020||ADT^A01^ADT_A01|1|P|2.5\rEVN||2020\rPID|||1||a#b\rPV1||I', None),
+    ('segment', '2.5', 'PID|||1~~2||A~~B', None),
+    ('segment', '2.5', 'PID|||~2||S', None),
+    ('segment', '2.3', 'PID|||1||S||||||||555-1234', None),               # TN leaf (base datatype up to 2.4)
+    ('segment', '2.5', 'OBX|1|NM|A||1.5||||||F', None),
+    ('segment', '2.5', 'OBX|1|DT|A||20200229||||||F', None),
+    ('segment', '2.5', 'NTE|1||a\\.br\\b', 'C01-multichar-escape'),
+    ('segment', '2.5', 'NTE|1||a\\X0D\\b', 'C01-multichar-escape'),
+    ('segment', '2.5', 'BHS|^~\\&|SND|FAC', 'C01-batch-header-delimiters'),
+    ('segment', '2.5', 'FHS|^~\\&|SND|FAC', 'C01-batch-header-delimiters'),
+]
+NCAT = len(CATALOGUE)
+
+
+def cat_check(i, trace=None):
+    reset_defaults()
+    kind, v, text, finding = CATALOGUE[i]
+    if finding and known_open(finding):
+        return True
+    if kind == 'message':
+        outs = [parse_message(text, validation_level=2, find_groups=fg).to_er7() for fg in (True, False)]
+    else:
+        outs = [parse_segment(text, version=v, validation_level=2).to_er7()]
+    if trace is not None:
+        trace.append('%s %s\n  text %r\n  out  %r' % (kind, v, text, outs))
+    return all(o == text for o in outs)
+
+
+def _ob_cat(i: int) -> bool:
+    """
+    pre: 0 <= i < NCAT
+    post: _
+    """
+    i = bsearch(i, NCAT)
+    with concrete():
+        return cat_check(i)
+
+
+def _witness_multichar():
+    return all(cat_check(i) for i, c in enumerate(CATALOGUE) if c[3] == 'C01-multichar-escape')
+
+
+def _witness_batch():
+    return all(cat_check(i) for i, c in enumerate(CATALOGUE) if c[3] == 'C01-batch-header-delimiters')
 
 
 # ---- W.gaps ---------------------------------------------------------------------------------------------------
@@ -327,6 +381,12 @@ def explain(call):
         elif m.group(1) == '_ob_shape':
             v = dict(zip(['r', 'w'], a)); v.update(kw)
             shape_check(*(SHAPES[v['r']] + WRAPS[v['w']]), trace=tr)
+        elif m.group(1) == '_ob_cat':
+            cat_check(a[0] if a else kw['i'], tr)
+        elif m.group(1) in ('_witness_multichar', '_witness_batch'):
+            for i, c in enumerate(CATALOGUE):
+                if c[3]:
+                    cat_check(i, tr)
         elif m.group(1) == '_ob_gap':
             gap_check(a[0] if a else kw['gi'], tr)
     except Exception as e:
@@ -355,6 +415,9 @@ SPEC = {
         {'name': 'S.shapes', 'fn': '_ob_shape', 'parts': 32, 'cond_timeout': {'quick': 900, 'thorough': 3000}, 'path_timeout': 60,
          'bound': '%d (version, segment) pairs x field i x {next field, last field} x forms %r^2 x component<3 x subcomponent<2 '
                   '(%d applicable shapes) x {segment alone, inside a message with find_groups on/off}' % (NPANEL, FORMS, NSHAPES)},
+        {'name': 'K.catalogue', 'fn': '_ob_cat', 'parts': 1, 'cond_timeout': 300, 'path_timeout': 60,
+         'bound': '%d special canonical texts (4-character MSH-2 under v2.7+, empty repetitions, TN / NM / DT leaves, multi-character '
+                  'escapes, batch headers)' % NCAT},
         {'name': 'W.gaps', 'fn': '_ob_gap', 'parts': 8, 'cond_timeout': 600, 'path_timeout': 60, 'allow_empty_pieces': True,
          'bound': 'all %d withdrawn field numbers (numbers a segment table skips below its maximum)' % NGAPS},
         {'name': 'T.dtypes', 'engine': 'E3', 'worker': '_e3_dtypes',
